@@ -128,6 +128,21 @@ def u1_u5(ctx, F):
                        "different string can alias a legal move (c2d3 played as c5xd6)",
                   expected="push_history(m) control-dependent on allowed.uci_notation() == <input token> for allowed in moves",
                   found={"conditions": [hir.fmt(sym(c), 200) for c in conds], "text comparisons": details})
+        # the membership test is NECESSARY for the play: with it assumed false the guard of the play site must be false on every path
+        # (a disjunct such as `already_checked || legal.any(..)` lets a move through that was never compared with the legal list)
+        sym2 = hir.Sym(env, F, through=True)
+        members = []
+        for n, a2 in hir.walk(fn["hir"]["body"]):
+            if n.get("k") == "MethodCall" and n["name"] in ("any", "find", "position", "contains") and \
+                    any(x.get("k") == "MethodCall" and x["name"] == "uci_notation" for x, _ in hir.walk(n)):
+                members.append(sym2(n))
+        term = hir.guards_term(hir.guards_of(call, fn["hir"]["body"], sym2) or [])
+        folded = hir.fold(term, {m_: ("lit", False) for m_ in members}) if members else term
+        nec = bool(members) and hir.all_leaves_false(folded)
+        ctx.check("C12.U1", "membership-test-is-necessary-for-playing", nec, fn=POS, file=fn["file"], line=hir.line(call),
+                  what="a move can be played on a path where the comparison with the legal moves of the current position failed or was "
+                       "skipped (the acceptance condition has an alternative that does not look at the position reached)",
+                  expected="no play when `legal.any(|m| m == parsed && m.uci_notation() == text)` is false", found=hir.fmt(folded, 200))
         ctx.check("C12.U1", "plays-the-matched-value", same_value or text_cmp and _plays_parsed(played), fn=POS, file=fn["file"],
                   line=hir.line(call), what="the move played must be the parsed value that was matched against the legal list",
                   found=hir.fmt(played, 80))
